@@ -190,6 +190,57 @@ def judgeNumbers (cfg : Cfg) (ri : Option RangeInfo) : List String :=
   | none => []
   | some ri => (ri.lits.filterMap (judgeLiteral cfg)).map fun m => "C02 number: " ++ m
 
+/-! ## the numbers of the value the crate returned, judged against the text (no model involved) -/
+
+/-- pairs (number literal of the text, number at the corresponding place of the returned value): arrays position by
+    position; an object entry corresponds to the LAST member of the text whose decoded key is the entry's key -/
+partial def numbersAgainstText (t : Spec.Grammar.CST) (v : JV) : List (Spec.Grammar.NumParts × Num) :=
+  match t, v with
+  | .num p, .num n => [(p, n)]
+  | .arr xs, .arr vs => (xs.zip vs).flatMap fun (x, w) => numbersAgainstText x w
+  | .obj ms, .obj kvs =>
+    kvs.flatMap fun (k, w) =>
+      match ms.reverse.find? (fun m => Spec.Denote.decodeItems m.1 == some k) with
+      | some m => numbersAgainstText m.2 w
+      | none => []
+  | _, _ => []
+
+/-- C02 on one number of the returned value: an integer is the exact value of an integer literal; a float is within
+    5 ulp of the literal's exact value (default build: finite, signed like the literal; the ulp is that of the correctly
+    rounded value, `Spec.Ieee.withinUlps`) resp. *the* nearest-even double (`float_roundtrip`, `Spec.Ieee.roundNE64`) -/
+def judgeNumberValue (cfg : Cfg) (p : Spec.Grammar.NumParts) (n : Num) : Option String :=
+  if cfg.ap then none else
+  let l := Spec.Range.litOf p
+  let h := hexOfBytes p.bytes
+  let isInt := l.fracDigits.isEmpty && l.expDigits.isEmpty
+  match n with
+  | .pos u =>
+    if isInt && !l.neg && u == l.sigVal then none else some s!"C02 integer value of literal {h} is not the integer it writes"
+  | .neg i =>
+    if isInt && l.neg && i == -(l.sigVal : Int) && i < 0 then none else some s!"C02 integer value of literal {h} is not the integer it writes"
+  | .float b =>
+    let (num, den) := l.exactClamped (Spec.Range.capOf l)
+    if isInt && !l.neg && l.sigVal < 2 ^ 64 then some s!"C02 float value of literal {h}: an integer within u64 must be kept exactly"
+    else if isInt && l.neg && 0 < l.sigVal && l.sigVal ≤ 2 ^ 63 then some s!"C02 float value of literal {h}: an integer within i64 must be kept exactly"
+    else if cfg.fr then
+      if Spec.Ieee.roundNE64 l.neg num den == some b then none
+      else some s!"C02 float value of literal {h} is not the nearest double of its exact value (got {hex16 b})"
+    else if Spec.Ieee.withinUlps 5 l.neg num den b then none
+    else some s!"C02 float value of literal {h} is not within 5 ulp of its exact value (got {hex16 b})"
+  | .lit _ => some s!"C02 number of literal {h}: a literal-text number without arbitrary_precision"
+
+/-- every number of the value one source returned, against the text -/
+def judgeReturnedNumbers (cfg : Cfg) (srcName : String) (ri : Option RangeInfo) (impl : String) : List String :=
+  if cfg.ap || !impl.startsWith "V" then [] else
+  match ri, decodeJV (impl.drop 1).toString with
+  | some ri, some v =>
+    if ri.lits.isEmpty then [] else
+    ((numbersAgainstText ri.tree v).filterMap fun (p, n) => judgeNumberValue cfg p n).map fun m =>
+      match m.splitOn "C02 " with
+      | ["", rest] => s!"C02 {srcName}: {rest}"
+      | _ => m
+  | _, _ => []
+
 /-- `pv <cfg> <hex>` / `pi <cfg> <hex>`: parse into Value / IgnoredAny from all three sources -/
 def parseAll (tgt : Tgt) : Handler := fun args impl =>
   match args with
@@ -205,6 +256,9 @@ def parseAll (tgt : Tgt) : Handler := fun args impl =>
             let vs := [judgeValue cfg "str" false bs s, judgeValue cfg "slice" true bs sl, judgeValue cfg "reader" true bs rd,
               judgeRange cfg "str" false ri s, judgeRange cfg "slice" true ri sl, judgeRange cfg "reader" true ri rd].filterMap id
             let vs := vs ++ (if [s, sl, rd].any (·.startsWith "V") && vs.isEmpty then judgeNumbers cfg ri else [])
+            -- the numbers of the returned value itself against the text: once when the sources agree, else per source
+            let vs := vs ++ (if (s == sl || s == "-") && sl == rd then judgeReturnedNumbers cfg "value" ri sl
+              else judgeReturnedNumbers cfg "str" ri s ++ judgeReturnedNumbers cfg "slice" ri sl ++ judgeReturnedNumbers cfg "reader" ri rd)
             -- a single string literal: the same verdicts are also C05's (decode side)
             let c05 := if (Spec.Rec.skipWs bs).head? == some 0x22 then vs.map fun m => "C05 string literal: " ++ m else []
             vs ++ c05 ++ pos.filterMap id ++ [judgeUtf8 "str" s, judgeUtf8 "slice" sl, judgeUtf8 "reader" rd].filterMap id
